@@ -3,16 +3,23 @@
 //! DESIGN.md, which use no libcnb code for judging).
 #![allow(deprecated)]
 
+mod depgraph;
 mod env;
 mod inventory;
 mod parse;
+mod pkg;
+mod streams;
 
 fn main() {
     let mode = std::env::args().nth(1).unwrap_or_default();
     match mode.as_str() {
         "env" => vpharness::serve(env::handle),
         "parse" => vpharness::serve(parse::handle),
+        "pkg" => vpharness::serve(pkg::handle),
         "inventory" => vpharness::serve(inventory::handle),
+        "streams" => streams::streams(&std::env::args().skip(2).collect::<Vec<_>>()),
+        "writers" => streams::writers(&std::env::args().skip(2).collect::<Vec<_>>()),
+        "depgraph" => depgraph::run(&std::env::args().skip(2).collect::<Vec<_>>()),
         "resolve" => inventory::resolve_bruteforce(&std::env::args().skip(2).collect::<Vec<_>>()),
         other => {
             eprintln!("vpmon: unknown mode {other:?}");
